@@ -145,6 +145,20 @@ Theorem job_exception_contained : forall c post,
   exists p, snd (propagate c) = cb_convert 0 (c_entry c) (SPanic p) /\ exc_of 0 p = None.
 Proof. exact Proofs.job_exception_contained. Qed.
 
+(* 7. generator / async bodies.  A body that suspended inside a try statement, left it, suspended again and only
+      then makes the call has no active try at the throw point: it is the frame [mkJS None false FinQuiet], which logs
+      nothing and passes on the exception (same value, same stack), an uncatchable error, a foreign panic and a
+      normal completion unchanged — so every theorem above holds across it (it is transparent, does not swallow).
+      The correspondence harness builds such bodies (driven by next(), for-of, Runtime.ForOf from native frames and
+      promise jobs) and the model term does not mention them. *)
+Theorem suspended_body_transparent : forall d s,
+  snd (step_js d (mkJS None false FinQuiet) s) = [] /\
+  sig_value (fst (step_js d (mkJS None false FinQuiet) s)) = sig_value s /\
+  (forall v st, s = SPanic (PVExc v st) -> fst (step_js d (mkJS None false FinQuiet) s) = s) /\
+  (forall p, s = SPanic p -> exc_of d p = None -> fst (step_js d (mkJS None false FinQuiet) s) = s) /\
+  (s = SNormal -> fst (step_js d (mkJS None false FinQuiet) s) = SNormal).
+Proof. exact Proofs.suspended_body_transparent. Qed.
+
 Print Assumptions identity_preserved.
 Print Assumptions identity_preserved_host.
 Print Assumptions errobj_stack_preserved.
@@ -160,3 +174,4 @@ Print Assumptions foreign_host.
 Print Assumptions plain_error_panic_propagates.
 Print Assumptions rethrow_identity.
 Print Assumptions job_exception_contained.
+Print Assumptions suspended_body_transparent.
